@@ -251,12 +251,9 @@ Lemma init_x_total x : init_x x <> None.
 Proof. unfold init_x. destruct (shape x) as [ | ? [ | ? ?]]; discriminate. Qed.
 
 Lemma init_x_pinned_refuted :
-  (exists x r, init_x_pinned x = Some r /\ shape (snd r) <> shape x) /\
-  (exists x, init_x_pinned x = None).
+  exists x r, init_x_pinned x = Some r /\ shape (snd r) <> shape x.
 Proof.
-  split.
-  - exists (mk_arr [3%nat] [1; 2; 3] true). eexists. split; [reflexivity | ]. simpl. discriminate.
-  - exists (mk_arr [3%nat] [1; 2; 3] false). reflexivity.
+  exists (mk_arr [3%nat] [1; 2; 3] true). eexists. split; [reflexivity | ]. simpl. discriminate.
 Qed.
 
 Lemma new_x_preserves_caller d nx r : new_x d nx = Some r -> snd r = nx.
@@ -272,10 +269,7 @@ Proof.
 Qed.
 
 Lemma new_x_pinned_refuted :
-  (exists d nx r, size nx = d /\ new_x_pinned d nx = Some r /\ shape (snd r) <> shape nx) /\
-  (exists d nx, size nx = d /\ new_x_pinned d nx = None).
+  exists d nx r, size nx = d /\ new_x_pinned d nx = Some r /\ shape (snd r) <> shape nx.
 Proof.
-  split.
-  - exists 2%nat, (mk_arr [2%nat] [1; 2] true). eexists. repeat split. simpl. discriminate.
-  - exists 2%nat, (mk_arr [2%nat] [1; 2] false). split; reflexivity.
+  exists 2%nat, (mk_arr [2%nat] [1; 2] true). eexists. repeat split. simpl. discriminate.
 Qed.
